@@ -1,11 +1,11 @@
-from props import thriftcommon
+from props import thriftcommon, wirealloc
 from props.common import generic_replay
 
 PROP = "C08"
 RULE = {
  "C13": "TLC enumerates struct layouts (field ids incl. 15/16/17, 70, 300, 32767; every thrift type; required / pointer options) x values and computes, from the protocol specifications written in spec/ThriftWire.tla, the prescribed bytes for the binary and compact protocols (structure as literal bytes, scalars as symbolic leaves), the long-form alternative, and the same under the recorded as-is switches; plus all message headers. The real Writers, Marshal, Readers and Unmarshal are compared byte for byte. distinct_nontrivial = distinct vectors",
  "C04": "same layouts x values: Marshal/Unmarshal round trip in binary strict, binary non-strict and compact, by value and by pointer, lists stretched across the 14/15-element short form, and Encoder/Decoder Reset/SetStrict histories compared with fresh ones",
- "C08": "same layouts x values: the content re-written with unknown fields of every thrift type and nesting around the target's ids, every prefix of the encoding (crash points), a trailing byte, each required field dropped, each field written with another wire type (strict), and seeded size/length damage with an allocation meter",
+ "C08": "same layouts x values: the content re-written with unknown fields of every thrift type and nesting around the target's ids, every prefix of the encoding (crash points), a trailing byte, each required field dropped, each field written with another wire type (strict), and seeded size/length damage with an allocation meter; plus spec/WireAlloc.tla: the reservation policies for lists, maps / sets and byte strings whose size is read from the wire (invariant: every byte ever allocated is within a constant factor of what was consumed; three wrong policies as vacuity witnesses) and every (kind, announced, present) triple of it, lifted to the code's constants (1024 elements, 4096 bytes, announced sizes up to 2^31-1), decoded on both protocols with a quiet allocation meter: unexpected-EOF class error and bounded allocation",
 }[PROP]
 ASSUME = ["no reference implementation of Thrift is available offline: only clauses of the published protocol specifications that are certain are encoded (bool elements inside compact containers are not generated)",
           "scalar ids are lifted to the boundary tables in harness/thriftshape.go"]
@@ -14,7 +14,8 @@ ASSUME = ["no reference implementation of Thrift is available offline: only clau
 def run(tier, seed):
     return thriftcommon.run(PROP, tier, seed, RULE, ASSUME, shards=4, isolate=(PROP != "C13"),
                             vlimit_kb=(6000000 if PROP == "C08" else None),
-                            map_entries=(1 if PROP == "C13" else 2))   # byte-exact comparison needs a fixed member order
+                            map_entries=(1 if PROP == "C13" else 2),
+                            extra_vec=(wirealloc.add if PROP == "C08" else None))   # byte-exact comparison needs a fixed member order
 
 
 def replay(path, seed):
